@@ -20,6 +20,8 @@ def run(tier):
         scen.append({"kind": kind, "strategy": "drop", "sinks": "fast", "directed": "syncstop"})
     for kind in ("direct", "count", "analytic", "cep"):      # a synchronous sink blocked beyond the grace period: Stop returns all the same
         scen.append({"kind": kind, "strategy": "drop", "sinks": "fast", "directed": "stopgrace"})
+    for kind in ("direct", "analytic"):      # an EmitSync call stuck in its sink beyond the grace period
+        scen.append({"kind": kind, "strategy": "drop", "sinks": "fast", "directed": "syncgrace"})
     scen.append({"kind": "cep", "strategy": "drop", "sinks": "fast", "directed": "stopgrace2"})      # the join AND the flush delivery share one grace period
     for kind in ("tumbling", "count", "session", "global", "sliding", "direct", "cep"):      # Stop right after Execute
         scen.append({"kind": kind, "strategy": "drop", "sinks": "fast", "directed": "stopatonce"})
